@@ -52,6 +52,8 @@ def scenarios(tier, seed):
         add("multitask", n=2, t=2, m=1, cfg={})
         add("multitask", n=1, t=3, m=2, cfg={"fpv": True, "detach": False})
         add("multitask_noninterleaved", n=2, t=2, m=1)
+        add("stub_posterior", n=2, m=2, mean="constant", lik="fixed", cfg={}, batch=0)       # as many test as training points
+        add("stub_posterior", n=2, m=2, mean="zero", lik="fixed_learn", cfg={"fpv": True}, batch=0)
         add("kiss", nodes=[2, 3], fpv=False, symx=True)
         add("kiss", nodes=[], fpv=False, symx=False)
         for ops in (["P0", "L"], ["P1", "O"], ["P0", "Dxy"]):
@@ -174,6 +176,15 @@ def stub_posterior(S, n, m, mean, lik, cfg, batch, small_noise=False):
                     pcov_t = pred.covariance_matrix
                     pmean_t = pred.mean
                     noise_s = as_sym_arr(SH.get(likelihood.noise))
+                else:
+                    # fixed-noise likelihood: the test points' noise is passed at call time (also when there are as many test points as
+                    # training points) and replaces the stored training noise; the learned part, if any, is added once
+                    tn = S.rand(*bs, m, lo=0.05, hi=0.5)
+                    TN = S.sym_tensor(tn, "testnoise", positive=True)
+                    pred = likelihood(out, noise=tn)
+                    pcov_t = pred.covariance_matrix
+                    pmean_t = pred.mean
+                    extra_s = as_sym_arr(SH.get(likelihood.second_noise)) if lik == "fixed_learn" else None
     # ---- reference, per batch element
     for b in np.ndindex(*bs):
         Gtr = Gs[b][:n, :n]
@@ -199,6 +210,12 @@ def stub_posterior(S, n, m, mean, lik, cfg, batch, small_noise=False):
                 nb = noise_s[b].reshape(-1)[0]
                 S.prove_eq(pcov_t[b], Cref + eye(m) * nb, tag + "likelihood(posterior).cov")
                 S.prove_eq(pmean_t[b], Mref, tag + "likelihood(posterior).mean")
+            else:
+                Cn = Cref.copy()
+                for i in range(m):
+                    Cn[i, i] = Cn[i, i] + TN[b + (i,)] + (extra_s[b].reshape(-1)[0] if extra_s is not None else Sym.const(0.0))
+                S.prove_eq(pcov_t[b], Cn, tag + "likelihood(posterior, noise=test noise).cov adds the call-time noise")
+                S.prove_eq(pmean_t[b], Mref, tag + "likelihood(posterior, noise=test noise).mean")
 
 
 def replaced_targets(S, n, m):
